@@ -76,7 +76,7 @@ func vecKinds(w *World) ([]*vecKind, error) {
 			if res.Len() != 2 {
 				continue
 			}
-			switch types.TypeString(res.At(0).Type(), qual) {
+			switch tstr(res.At(0).Type(), qual) {
 			case "[]VectorResult":
 				singles = append(singles, f)
 			case "[][]float32":
